@@ -71,6 +71,13 @@ def gen_case(rnd, tier: str, i: Any) -> Dict[str, Any]:
                                   ops_per_step=rnd.choice([(2, 5), (3, 8), (6, 12)]))
         tr = gen_sim.gen_trace(rnd, **p)
         gen_sim.drop_events(rnd, tr, p_launch=rnd.choice([0, 0, 0.15]), p_kernel=rnd.choice([0, 0, 0.1]))
+        if rnd.random() < 0.25:
+            # a stream id whose records carry two device pids (one process driving two devices, exported under one stream id):
+            # the breakdown is per stream id
+            for e in tr["traceEvents"]:
+                if e.get("ph") == "X" and e.get("cat") in ("kernel", "gpu_memcpy", "gpu_memset") and rnd.random() < 0.4:
+                    e["pid"] = 1
+                    e["args"]["device"] = 1
         if rnd.random() < 0.3:
             gen_sim.add_device_spans(rnd, tr)        # GPU-side annotations / profiler ranges on the kernels' streams
         files[f"rank{r}.json"] = tr
